@@ -29,6 +29,10 @@ class Sim:
         db = env.reuse_db(app_id) if backend == env.SQLITE else None
         self.backend = backend
         self.app = env.make_app(backend, app_id=app_id, db=db, **cfg)
+        # components are built lazily: build them (and their tables) now, outside the scheduler - table creation under
+        # the scheduler happens only the first time a process sees the file, which would make executions differ
+        for comp in ("orchestrator", "broker", "state_backend", "trigger", "client_data_store"):
+            getattr(self.app, comp)
         self.runner = ThreadRunner(self.app)
         self.claimed: list[str] = []
         self.events: list[tuple] = []
